@@ -32,6 +32,19 @@ def generate(rng, tier):
             cases.append(_case(regime, segs))
         for _ in range(3000 if tier == "thorough" else 300):
             cases.append(_case(regime, gen.rand_timeline(rng, regime)))
+        for nbig in ([300, 520, 700, 1100] if tier == "thorough" else [300 + 37 * len(regime), 640]):
+            # large timelines (more than 256 / 512 / 1000 segments) with runs of equal starts; queried at the starts
+            # of the segments sitting around positions 256 k of the sorted order, and at random bounds
+            if regime == "K1" and tier != "thorough":
+                continue
+            big = gen.big_timeline(rng, regime, nbig)
+            srt = sorted(tuple(x) for x in big)
+            pts = {srt[i][0] for k in (256, 512, 768, 1000, 1024) for i in range(k - 6, k + 6) if 0 <= i < len(srt)}
+            pts |= {rng.choice(srt)[rng.randrange(2)] for _ in range(25)}
+            c = _case(regime, big)
+            c["ts"] = sorted({2 * p + d for p in pts for d in (-1, 0, 1)})
+            c["qs"] = c["qs"][:12]
+            cases.append(c)
         for _ in range(200 if tier == "thorough" else 25):
             # the same, hours or days away from the origin
             off = rng.choice(gen.FAR_SECONDS) * REGIMES[regime]["scale"]
